@@ -69,18 +69,23 @@ func c12DryImplied(c *Check, a *Anchors) {
 
 func c12CmdsNotRun(c *Check, a *Anchors) {
 	c.Rule("cmds-not-run-when-dry", "the cmds execext.RunCommand site of the command runner is dominated by the false edge of Executor.Dry; in Run every start of a task (RunTask call or its errgroup.Go spawn) is dominated by the false edge of Executor.Summary")
-	fb := a.CmdRunner
+	fb := a.ShellExec
 	c.Fn(fb)
 	f := NewFlow(c.P, fb, a.labelRun(fb.Info()))
 	f.Run()
 	n := 0
 	for call, l := range f.Labels {
-		if l != "runcommand" {
+		if l != "runcommand" || callee(fb.Info(), call) != a.RunCommandObj {
 			continue
 		}
 		n++
 		st := f.At[call]
-		c.Decide(st.Has("false:field:Executor.Dry"), "cmds-not-run-when-dry", "RunCommand@"+fnDisplay(fb), call.Pos(), "guarded by !Executor.Dry",
+		guarded := st.Has("false:field:Executor.Dry")
+		if !guarded && fb != a.CmdRunner {
+			// the shell execution was split off from the command runner: the guard is at every call site of the helper
+			guarded, _ = callersDryGuarded(c.P, fb, 2)
+		}
+		c.Decide(guarded, "cmds-not-run-when-dry", "RunCommand@"+fnDisplay(a.CmdRunner), call.Pos(), "guarded by !Executor.Dry",
 			"the command runner reaches execext.RunCommand without having tested Executor.Dry on every path: --dry / --status would execute cmds; must-facts: "+st.String())
 	}
 	c.Floor("cmds-not-run-when-dry", n, 1)
